@@ -1,11 +1,16 @@
 import CelmaVerif.Lemmas.LogFormat
+import CelmaVerif.Lemmas.LogFormatScopes
+import CelmaVerif.Lemmas.LogFormatNumbers
+import CelmaVerif.Lemmas.LogFormatSep
 /-
   C16 — every delivered log message is rendered exactly as its format definition says.
   Property theorems only; the model is Model/LogFormat.lean, the specification-side definitions
-  (`specFields`, `padded`, `Nested`, `globalsOf`) and helper lemmas are in Lemmas/LogFormat.lean.
+  (`specFields`, `padded`) and helper lemmas are in Lemmas/LogFormat.lean, those of the attribute scopes
+  (`addsOf`, `endedOf`, `liveOf`, `globalsOf`, `Nested`, `Scopes.WF`) in Lemmas/LogFormatScopes.lean.
 
-  The model is that of the repaired code: /repo commits a30730d (date/time texts of 127 bytes and more)
-  and 00bb4c9 (message attribute with an empty value), see known_findings.d/logformat.json.
+  The model is that of the repaired code: /repo commits a30730d (date/time texts of 127 bytes and more),
+  00bb4c9 (message attribute with an empty value) and 46917af (a scoped attribute removes its own entry),
+  see known_findings.d/logformat.json.
 -/
 namespace CelmaVerif.Props.C16
 open CelmaVerif CelmaVerif.LogFormat
@@ -69,6 +74,15 @@ theorem C16_builder_no_options (pre : List Tok) (a : Tok) (ha : a.isAdder = true
   have := C16_builder_options_next_field_only pre [] a (.field t) ha (by simp)
   rw [this]; rfl
 
+/-- The separator rule in its readable form: a creator with a (non-empty) automatic separator, given
+    any sequence of fields without options, builds those fields with the separator *between* them —
+    none in front, none at the end.  (`C16_builder` is the general statement: separators that change,
+    options, constant texts, a definition that is not empty at the start.) -/
+theorem C16_separator_between_fields (sep : Text) (hsep : sep ≠ []) (ks : List FieldType) :
+    ((Creator.new [] (some sep)).run (ks.map Tok.field)).fields =
+      (ks.map plainField).intersperse (Creator.sepField sep) :=
+  run_plain_fields sep hsep ks
+
 /-- the maintainers' `test_align_fixedwidth` expression, and an automatic separator that changes -/
 example : ((Creator.new [] none).run
       [.width 20, .left, .field .fileName, .const (bytes ":"), .width 6, .field .lineNbr]).fields =
@@ -107,10 +121,14 @@ theorem C16_pad (w : Int) (left : Bool) (s : Text) :
     have : w.toNat - s.length = 0 := by omega
     cases left <;> simp [padded, this]
 
-/-- What each kind of field shows: constant text verbatim; date, time and date-time through
-    `strftime` with the field's own format string if it has one, else `%F`, `%T`, `%F %T`; level and
-    class as their names; error number, line number and process id in decimal; file, function and
-    text as the message holds them; an attribute field the value of the attribute it names. -/
+/-- What each of the sixteen kinds of field shows — which datum of the message goes with which kind:
+    constant text verbatim; date, time and date-time through `strftime` with the field's own format
+    string if it has one, else `%F`, `%T`, `%F %T`; the milliseconds and microseconds within the second
+    zero-padded to three and six digits; level and class as their names (`C16_level_class_names`);
+    error number, line number and process id in decimal (`C16_number_text` says what `decInt` and
+    `zeroPad` are); the thread id as "0x" and its hexadecimal digits; file, function and text as the
+    message holds them; an attribute field the value of the attribute it names
+    (`C16_attr_precedence`, `C16_attr_latest`). -/
 theorem C16_field_text (e : Env) (m : Msg) (c : Text) (w : Int) (l : Bool) :
     fieldText e m ⟨.constant, c, w, l⟩ = c ∧
     fieldText e m ⟨.date, c, w, l⟩ = e.strftime (if c = [] then bytes "%F" else c) m.time ∧
@@ -124,8 +142,53 @@ theorem C16_field_text (e : Env) (m : Msg) (c : Text) (w : Int) (l : Bool) :
     fieldText e m ⟨.functionName, c, w, l⟩ = m.func ∧
     fieldText e m ⟨.pid, c, w, l⟩ = decInt m.pid ∧
     fieldText e m ⟨.text, c, w, l⟩ = m.text ∧
-    fieldText e m ⟨.attribute, c, w, l⟩ = attrValue e m c :=
-  ⟨rfl, rfl, rfl, rfl, rfl, rfl, rfl, rfl, rfl, rfl, rfl, rfl, rfl⟩
+    fieldText e m ⟨.attribute, c, w, l⟩ = attrValue e m c ∧
+    fieldText e m ⟨.time_ms, c, w, l⟩ = zeroPad 3 (m.usec / 1000 % 1000) ∧
+    fieldText e m ⟨.time_us, c, w, l⟩ = zeroPad 6 (m.usec % 1000000) ∧
+    fieldText e m ⟨.threadId, c, w, l⟩ = bytes "0x" ++ (Nat.toDigits 16 m.tid).map Char.toNat :=
+  ⟨rfl, rfl, rfl, rfl, rfl, rfl, rfl, rfl, rfl, rfl, rfl, rfl, rfl, rfl, rfl, rfl⟩
+
+/-- The number texts, told without the model's definitions.  `decNat n` (a non-negative number as
+    `std::to_string` writes it) consists of ASCII digits, denotes `n` in decimal notation
+    (`digitsValue`) and has at most `k` digits exactly when `n < 10^k` (so: no leading zeros);
+    `decInt` puts a '-' in front of the absolute value of a negative number; `zeroPad k n` for a number
+    that fits into `k` digits has exactly `k` digits and denotes `n` — in particular the `time_ms` and
+    `time_us` fields are always three and six digits long. -/
+theorem C16_number_text :
+    (∀ n, (∀ c ∈ decNat n, 48 ≤ c ∧ c ≤ 57) ∧ digitsValue (decNat n) = n ∧
+      ∀ k, 0 < k → ((decNat n).length ≤ k ↔ n < 10 ^ k)) ∧
+    (∀ i : Int, decInt i = if i < 0 then 45 :: decNat i.natAbs else decNat i.natAbs) ∧
+    (∀ k n, 0 < k → n < 10 ^ k →
+      (zeroPad k n).length = k ∧ (∀ c ∈ zeroPad k n, 48 ≤ c ∧ c ≤ 57) ∧ digitsValue (zeroPad k n) = n) ∧
+    (∀ (e : Env) (m : Msg) (c : Text) (w : Int) (l : Bool),
+      (fieldText e m ⟨.time_ms, c, w, l⟩).length = 3 ∧
+      digitsValue (fieldText e m ⟨.time_ms, c, w, l⟩) = m.usec / 1000 % 1000 ∧
+      (fieldText e m ⟨.time_us, c, w, l⟩).length = 6 ∧
+      digitsValue (fieldText e m ⟨.time_us, c, w, l⟩) = m.usec % 1000000) := by
+  refine ⟨fun n => ⟨decNat_digits n, decNat_value n, decNat_length n⟩, decInt_eq, zeroPad_spec, ?_⟩
+  intro e m c w l
+  have h3 := zeroPad_spec 3 (m.usec / 1000 % 1000) (by decide) (Nat.mod_lt _ (by decide))
+  have h6 := zeroPad_spec 6 (m.usec % 1000000) (by decide) (Nat.mod_lt _ (by decide))
+  exact ⟨h3.1, h3.2.2, h6.1, h6.2.2⟩
+
+/-- The names of the levels and classes (the tables of `logLevel2text` / `logClass2text`); every other
+    value is shown as "undefined". -/
+theorem C16_level_class_names :
+    levelText 1 = bytes "Fatal Error" ∧ levelText 2 = bytes "Error" ∧ levelText 3 = bytes "Warning" ∧
+    levelText 4 = bytes "Info" ∧ levelText 5 = bytes "Debug" ∧ levelText 6 = bytes "Full Debug" ∧
+    classText 1 = bytes "SysCall" ∧ classText 2 = bytes "Data" ∧ classText 3 = bytes "Communication" ∧
+    classText 4 = bytes "Application" ∧ classText 5 = bytes "Accounting" ∧
+    classText 6 = bytes "Operator Action" ∧
+    (∀ n, n = 0 ∨ 7 ≤ n → levelText n = bytes "undefined" ∧ classText n = bytes "undefined") := by
+  refine ⟨rfl, rfl, rfl, rfl, rfl, rfl, rfl, rfl, rfl, rfl, rfl, rfl, ?_⟩
+  intro n hn
+  match n, hn with
+  | 0, _ => exact ⟨rfl, rfl⟩
+  | n + 7, _ => exact ⟨rfl, rfl⟩
+  | 1, h | 2, h | 3, h | 4, h | 5, h | 6, h => omega
+
+example : decInt (-13) = bytes "-13" ∧ decInt 0 = bytes "0" ∧ zeroPad 3 12 = bytes "012" ∧
+    digitsValue (bytes "012") = 12 := by decide
 
 /-- Builder and renderer together: the text written for a message under the definition built by a
     stream expression is the concatenation, over the specified fields, of the padded field texts. -/
@@ -202,42 +265,145 @@ theorem C16_attr_precedence (e : Env) (m : Msg) (n : Text) :
   · intro c outer v h; simp [chainFind, h]
   · intro c outer h; simp [chainFind, h]
 
+/-! ### attribute scopes
+
+  `Scopes` = the global container (entries with the ids `addAttribute` handed out) + the ids held by
+  the living `ScopedAttribute` objects.  `Scopes.WF` (ids below `mNextId`, no id twice, live ids handed
+  out) holds in the initial state and is kept by every event (`C16_scope_invariant`), so every
+  statement below is about every state a program can reach. -/
+
+/-- The invariant the statements below assume holds initially and after every history. -/
+theorem C16_scope_invariant :
+    ({} : Scopes).WF ∧ ∀ (s s' : Scopes) (es : List Ev), s.WF → s.run es = some s' → s'.WF :=
+  ⟨Scopes.WF_init, fun s s' es hs h => Scopes.WF_run es s s' hs h⟩
+
+/-- The end of a scope, in any reachable state and whatever happened since the scope began (other
+    scopes, permanent `addAttribute`/`removeAttribute` calls with the same name, scopes ended out of
+    order): exactly the entry the scope added is gone — if `removeAttribute` took it away earlier,
+    nothing changes — and every other entry is still there, in the same order. -/
+theorem C16_scope_end_removes_own_entry (s : Scopes) (hs : s.WF) :
+    (∀ k rest, s.live = k :: rest →
+      s.step .pop = some { s with ents := s.ents.filter (fun e => e.id ≠ k), live := rest }) ∧
+    (∀ i k, s.live[i]? = some k →
+      s.step (.drop i) = some { s with ents := s.ents.filter (fun e => e.id ≠ k), live := s.live.eraseIdx i }) ∧
+    (∀ k, (∀ e ∈ s.ents, e.id ≠ k) → s.ents.filter (fun e => e.id ≠ k) = s.ents) := by
+  refine ⟨?_, ?_, ?_⟩
+  · intro k rest hl
+    simp only [Scopes.step, hl]
+    rw [removeId_eq_filter _ _ hs.nodup]
+  · intro i k hl
+    simp only [Scopes.step, hl]
+    rw [removeId_eq_filter _ _ hs.nodup]
+  · intro k h
+    rw [List.filter_eq_self]
+    intro e he; simpa using h e he
+
+/-- Every point of every history without `removeAttribute` — scopes opened, nested, ended in or out of
+    order, permanent additions with any name at any moment, from any reachable state.  After every
+    prefix (`es.take k`) the global container holds exactly: what was there before and what the prefix
+    added (`addsOf`, scoped and permanent alike, in order of addition), without the entries of the
+    scopes that have ended by then (`endedOf`); the scopes still open are `liveOf`.  Hence every
+    attribute lookup at that point sees the newest entry of the name among the permanent attributes
+    and the scopes that are open at that point (`C16_attr_latest`), and nothing of a scope that ended. -/
+theorem C16_scope_every_point (s : Scopes) (hs : s.WF) (es : List Ev) (hr : ∀ e ∈ es, e.isRemove = false)
+    (k : Nat) (s' : Scopes) (h : s.run (es.take k) = some s') :
+    let visible := (s.ents ++ addsOf s.next (es.take k)).filter
+      (fun e => !(endedOf s.next s.live (es.take k)).contains e.id)
+    s'.ents = visible ∧ s'.live = liveOf s.next s.live (es.take k) ∧
+    ∀ (sf : Text → Int → Text) (m : Msg) (n : Text),
+      attrValue ⟨sf, s'.glob⟩ m n = attrValue ⟨sf, viewOf visible⟩ m n := by
+  have := Scopes.run_spec (es.take k) s s' hs (fun e he => hr e (List.mem_of_mem_take he)) h
+  refine ⟨this.1, this.2, ?_⟩
+  intro sf m n
+  simp only [Scopes.glob, this.1]
+
+/-- Scoped attributes disappear when their scope ends — every history, `removeAttribute` included,
+    after every prefix: no entry of a scope that has ended is in the container, and the container
+    holds nothing but (some of) what was there before and what the prefix added, in order. -/
+theorem C16_scope_end_for_good (s : Scopes) (hs : s.WF) (es : List Ev) (k : Nat) (s' : Scopes)
+    (h : s.run (es.take k) = some s') :
+    (∀ i ∈ endedOf s.next s.live (es.take k), ∀ e ∈ s'.ents, e.id ≠ i) ∧
+    s'.ents.Sublist (s.ents ++ addsOf s.next (es.take k)) :=
+  Scopes.run_ended (es.take k) s s' hs h
+
+/-- `Logging::removeAttribute( name)` removes the newest entry of that name, whoever added it (a scope
+    included: its end then removes nothing, `C16_scope_end_removes_own_entry`), and nothing when there
+    is none. -/
+theorem C16_remove_by_name (s : Scopes) (n : Text) :
+    (∀ pre post x, s.ents = pre ++ x :: post → x.name = n → (∀ e ∈ post, e.name ≠ n) →
+      s.step (.remove n) = some { s with ents := pre ++ post }) ∧
+    ((∀ e ∈ s.ents, e.name ≠ n) → s.step (.remove n) = some s) := by
+  constructor
+  · intro pre post x he hx hpost
+    simp only [Scopes.step, he]
+    rw [← hx, removeName_last pre post x (by rw [hx]; exact hpost)]
+  · intro h
+    simp only [Scopes.step]
+    rw [removeName_absent _ _ h]
+
 /-- Scopes.  For every well-bracketed history (scoped attributes nested to any depth, in sequence,
-    interleaved with permanent `addAttribute` calls whose name is not that of a scope open at that
-    moment) from any state: every scope ends by removing exactly the entry it added, so the global
-    attributes afterwards are the ones before plus the permanent additions, in order. -/
-theorem C16_scoped (es : List Ev) (h : Nested es) (s : Scopes) :
-    s.run es = some { glob := s.glob ++ globalsOf es, live := s.live } :=
-  Scopes.run_nested es h s
+    interleaved with permanent `addAttribute` calls of any name — also the name of a scope that is open
+    at that moment) from any reachable state: every scope ends by removing exactly the entry it added,
+    so the global attributes afterwards are the ones before plus the permanent additions, in order. -/
+theorem C16_scoped (es : List Ev) (h : Nested es) (s : Scopes) (hs : s.WF) :
+    ∃ s', s.run es = some s' ∧ s'.glob = s.glob ++ globalsOf es ∧ s'.live = s.live := by
+  obtain ⟨g, n, hrun, _, hv, _⟩ := Scopes.run_nested es h s hs.lt
+  exact ⟨_, hrun, by simp [Scopes.glob, viewOf_append, hv], rfl⟩
 
 /-- Scoped attributes disappear when their scope ends: after any nesting of scopes (no permanent
     additions) every attribute lookup, for every message, gives what it gave before. -/
-theorem C16_scoped_restore (es : List Ev) (h : Nested es) (hg : globalsOf es = []) (s : Scopes) :
+theorem C16_scoped_restore (es : List Ev) (h : Nested es) (hg : globalsOf es = []) (s : Scopes) (hs : s.WF) :
     ∃ s', s.run es = some s' ∧ s'.glob = s.glob ∧ s'.live = s.live ∧
       ∀ (sf : Text → Int → Text) (m : Msg) (n : Text),
         attrValue ⟨sf, s'.glob⟩ m n = attrValue ⟨sf, s.glob⟩ m n := by
-  refine ⟨_, C16_scoped es h s, by simp [hg], rfl, ?_⟩
-  intro sf m n; simp [hg]
+  obtain ⟨s', hrun, hglob, hlive⟩ := C16_scoped es h s hs
+  rw [hg, List.append_nil] at hglob
+  refine ⟨s', hrun, hglob, hlive, ?_⟩
+  intro sf m n; rw [hglob]
 
-/-- While a scope is open its value is the one shown (newest global entry), unless the message
-    itself defines the attribute. -/
-theorem C16_scoped_visible (g : Attrs) (n v : Text) (sf : Text → Int → Text) (m : Msg)
+/-- While a scope is open and nothing was added after it, its value is the one shown (newest global
+    entry), unless the message itself defines the attribute. -/
+theorem C16_scoped_visible (s : Scopes) (n v : Text) (sf : Text → Int → Text) (m : Msg)
     (hm : chainFind m.attrs n = none) :
-    attrValue ⟨sf, g.add n v⟩ m n = v := by
-  have := (C16_attr_latest g n).2.2.1 v
-  simp [attrValue, hm, Attrs.get, this]
+    ∃ s', s.step (.push n v) = some s' ∧ s'.glob = s.glob.add n v ∧ attrValue ⟨sf, s'.glob⟩ m n = v := by
+  refine ⟨_, rfl, by simp [Scopes.glob, viewOf, Attrs.add], ?_⟩
+  have := (C16_attr_latest s.glob n).2.2.1 v
+  have hg : Scopes.glob { ents := s.ents ++ [⟨s.next, n, v⟩], next := s.next + 1, live := s.next :: s.live } =
+      s.glob.add n v := by simp [Scopes.glob, viewOf, Attrs.add]
+  simp [attrValue, hm, Attrs.get, hg, this]
 
-/-- a nesting two deep with a permanent addition inside, from a non-empty state -/
-example : Nested [.push [1] [10], .global [3] [30], .push [2] [20], .pop, .push [1] [11], .pop, .pop] := by
-  have h2 : Nested [.push [2] [20], .pop] := Nested.scope [2] [20] [] Nested.nil (by simp [globalsOf])
-  have h3 : Nested [.push [1] [11], .pop] := Nested.scope [1] [11] [] Nested.nil (by simp [globalsOf])
-  have hin : Nested ([.global [3] [30]] ++ ([.push [2] [20], .pop] ++ [.push [1] [11], .pop])) :=
+/-- a nesting two deep with permanent additions inside — one with the name of the open scope — from a
+    non-empty state -/
+example : Nested [.push [1] [10], .global [1] [30], .push [2] [20], .pop, .push [1] [11], .pop, .pop] := by
+  have h2 : Nested [.push [2] [20], .pop] := Nested.scope [2] [20] [] Nested.nil
+  have h3 : Nested [.push [1] [11], .pop] := Nested.scope [1] [11] [] Nested.nil
+  have hin : Nested ([.global [1] [30]] ++ ([.push [2] [20], .pop] ++ [.push [1] [11], .pop])) :=
     Nested.cat _ _ (Nested.global _ _) (Nested.cat _ _ h2 h3)
-  exact Nested.scope [1] [10] _ hin (by decide)
+  exact Nested.scope [1] [10] _ hin
 
-example : ({ glob := [([1], [9])], live := [] } : Scopes).run
-      [.push [1] [10], .global [3] [30], .push [2] [20], .pop, .push [1] [11], .pop, .pop] =
-    some { glob := [([1], [9]), ([3], [30])], live := [] } := by decide
+example : (({ ents := [⟨0, [1], [9]⟩], next := 1, live := [] } : Scopes).run
+      [.push [1] [10], .global [1] [30], .push [2] [20], .pop, .push [1] [11], .pop, .pop]).map Scopes.glob =
+    some [([1], [9]), ([1], [30])] := by decide
+
+/-- the two histories of the audit: a permanent `addAttribute` / `removeAttribute` of the scope's name
+    inside the scope.  Before the repair the results were `[([1], [10])]` (the scoped value stayed for
+    good, the permanent one was lost) and `[]` (the older permanent attribute was destroyed). -/
+example : (({} : Scopes).run [.push [1] [10], .global [1] [30], .pop]).map Scopes.glob =
+    some [([1], [30])] := by decide
+example : (({ ents := [⟨0, [1], [9]⟩], next := 1, live := [] } : Scopes).run
+      [.push [1] [10], .remove [1], .pop]).map Scopes.glob = some [([1], [9])] := by decide
+
+/-- scopes ended out of order: the older scope ends first, the newer one stays visible -/
+example : (({} : Scopes).run [.push [1] [10], .push [1] [11], .drop 1]).map Scopes.glob =
+    some [([1], [11])] := by decide
+
+/-- `C16_scope_every_point` at the points 0…5 of a history with an out-of-order end: what is visible -/
+example :
+    let h : List Ev := [.push [1] [10], .global [1] [30], .push [2] [20], .drop 1, .pop]
+    (List.range 6).map (fun k =>
+      viewOf ((addsOf 0 (h.take k)).filter (fun e => !(endedOf 0 [] (h.take k)).contains e.id))) =
+    [[], [([1], [10])], [([1], [10]), ([1], [30])], [([1], [10]), ([1], [30]), ([2], [20])],
+     [([1], [30]), ([2], [20])], [([1], [30])]] := by decide
 
 /-- message attribute (even empty) over scoped over permanent global -/
 example : attrValue ⟨fun _ _ => [], [([1], [9]), ([1], [10])]⟩ { attrs := [[([1], [])], [([1], [7])]] } [1] = [] := by
